@@ -221,9 +221,12 @@ def executable_lines(repo, relfiles):
     return out
 
 
-def _still_violates(mod, scn, clause_sig):
-    r = run_one(mod, scn)
+def _still_violates(mod, scn, clause_sig, cpu_limit=None):
+    c0 = time.process_time()
+    r = run_one(mod, scn, wall=cpu_limit or 120.0)
     if r.get('harness_errors'):
+        return None
+    if cpu_limit is not None and time.process_time() - c0 > cpu_limit:
         return None
     for v in r.get('violations') or ():
         if signature(v) == clause_sig:
@@ -238,6 +241,13 @@ def shrink(mod, scn, sig, budget_runs=400, budget_s=45.0):
     clause = sig.split('|', 1)[0]
     if not hasattr(mod, 'shrink_candidates'):
         return cur, runs
+    # a smaller scenario is no use if it takes far longer to execute (a
+    # minimised run-away loop spins until the step cap): candidates are
+    # given 3x the CPU time of the original, at least 5 s
+    c0 = time.process_time()
+    if _still_violates(mod, scn, sig) is None:
+        return cur, runs
+    limit = max(5.0, 3.0 * (time.process_time() - c0))
     progress = True
     while progress and runs < budget_runs and PERF() - t0 < budget_s:
         progress = False
@@ -245,7 +255,7 @@ def shrink(mod, scn, sig, budget_runs=400, budget_s=45.0):
             if runs >= budget_runs or PERF() - t0 >= budget_s:
                 break
             runs += 1
-            if _still_violates(mod, cand, sig) is not None:
+            if _still_violates(mod, cand, sig, cpu_limit=limit) is not None:
                 cur = cand
                 progress = True
                 break
@@ -329,7 +339,7 @@ def _history_report(pid, mod, rec, sig, tier, base, path, occurrences):
     t0 = PERF()
     n = 2
     trials = 0
-    while len(hist) >= 1 and trials < 40 and PERF() - t0 < 600:
+    while len(hist) >= 1 and trials < 14 and PERF() - t0 < 240:
         size = max(1, len(hist) // n)
         removed = False
         for a in range(0, len(hist), size):
@@ -340,7 +350,7 @@ def _history_report(pid, mod, rec, sig, tier, base, path, occurrences):
                 hist, dig, removed = cand, d2, True
                 n = max(2, n - 1)
                 break
-            if trials >= 40 or PERF() - t0 >= 600:
+            if trials >= 14 or PERF() - t0 >= 240:
                 break
         if not removed:
             if size == 1:
@@ -620,6 +630,29 @@ def main(argv=None):
                              '--replay', path, '--quiet-replay'],
                             capture_output=True, text=True, env=env,
                             timeout=600)
+        if cp.returncode == 2 and 'REPLAY-MISMATCH' in cp.stdout:
+            # The violation reproduces in a fresh interpreter, its event log
+            # does not (the change under test made the run depend on
+            # something the simulator does not control, e.g. the iteration
+            # order of a set of objects).  Keep the replay without a digest
+            # and say so, if it reproduces twice more.
+            with open(path) as f:
+                doc = json.load(f)
+            doc['expected_digest'] = None
+            doc['digest_unstable'] = ('the violation reproduces, the event '
+                                      'log differs between executions')
+            with open(path, 'w') as f:
+                json.dump(doc, f, indent=1, sort_keys=True)
+            if trial_confirm(pid, path)[0] and trial_confirm(pid, path)[0]:
+                print('violation: %s\n  %s\n  (seen %d time(s) in this batch; '
+                      'minimised with %d re-executions; event log not '
+                      'stable between executions)' % (
+                          s, vv[0].get('msg'), len(lst), sruns))
+                print('VIOLATION property=%s replay=%s' % (pid, path),
+                      flush=True)
+                reported.append(s)
+                exit_code = 1
+                continue
         if cp.returncode != 1:
             how = _history_report(pid, mod, rec, s, tier, base, path,
                                   len(lst))
